@@ -6,6 +6,13 @@ SM = "wannierberri/smoother.py"
 ER = "wannierberri/result/energyresult.py"
 RG = "wannierberri/run_grid.py"
 MUTANTS = [
+    dict(prop="C11", name="read_factors: revert fix", file=RG, old="iter_indices = np.sort(np.array([int(f.split(\"-\")[-1].split(\".\")[0]) for f in files]))", new="iter_indices = np.array([int(f.split(\"-\")[-1].split(\".\")[0]) for f in files])"),
+    dict(prop="C11", name="read_factors: iter+1 dropped", file=RG, old="iter_index = iter_indices[-1] + iter + 1", new="iter_index = iter_indices[-1] + iter"),
+    dict(prop="C11", name="read_factors: fallback picks later file", file=RG, old="iter_index = iter_indices[iter_indices <= iter_index][-1]", new="iter_index = iter_indices[iter_indices >= iter_index][0]"),
+    dict(prop="C11", name="write_factors: width 2 (sorting breaks at 100)", file=RG, old='f"factors_iter-{iter:08d}.npy"), \'wb\'', new='f"factors_iter-{iter:02d}.npy"), \'wb\''),
+    dict(prop="C11", name="restart: weights not restored", file=RG, old="            Kp.set_factor(fac)", new="            pass"),
+    dict(prop="C11", name="restart: K_list pickled from nk_prev+1", file=RG, old="            for ink in range(nk_prev, nk, Klist_part):", new="            for ink in range(nk_prev + (1 if nk_prev > 0 else 0), nk, Klist_part):"),
+    dict(prop="C11", name="PRESERVING: sorted() instead of np.sort", file=RG, old="iter_indices = np.sort(np.array([int(f.split(\"-\")[-1].split(\".\")[0]) for f in files]))", new="iter_indices = np.array(sorted(int(f.split(\"-\")[-1].split(\".\")[0]) for f in files))", expect="ok"),
     dict(prop="C12", name="process: revert fix", file=RG, old="remotes_calculated_old = remotes_calculated_old | remotes_calculated_bool", new="remotes_calculated_old = remotes_calculated_bool"),
     dict(prop="C12", name="process: break before collecting the last batch", file=RG, old="""            remotes_calculated_diff = remotes_calculated_bool & ~remotes_calculated_old
             for ir in np.where(remotes_calculated_diff)[0]:""", new="""            remotes_calculated_diff = remotes_calculated_bool & ~remotes_calculated_old
